@@ -2,6 +2,7 @@
 // Oracle: reference state machine stepped with every operation; virtual clock
 // (the harness defines time()).  Mode "e2e": events come from the library's
 // parameter ports and the undo messages are dispatched back into them.
+#include <climits>
 #include "vh.h"
 #include "refosc.h"
 #include <rtosc/rtosc.h>
@@ -38,7 +39,7 @@ struct RefUndo {
     }
     void seek(int d, std::vector<std::string> &out)
     {
-        long dest = pos + d;
+        long dest = pos + (long)d;
         if(dest < 0) dest = 0;
         if(dest > (long)h.size()) dest = (long)h.size();
         while(pos > dest) { --pos; out.push_back(enc(h[pos].addr, h[pos].type, h[pos].oldv)); }
@@ -95,6 +96,8 @@ static void run_model_case(Rng &r)
             count("ops.record");
         } else if(k < 8) {
             int d = r.chance(0.2) ? (int)r.range(-30, 30) : (int)r.range(-4, 4);
+            // "everything": the extreme distances a caller uses for undo-all / redo-all
+            if(r.chance(0.06)) { static const int X[] = {INT_MAX, INT_MIN, INT_MAX - 1, INT_MIN + 1, INT_MAX - 20, 1 << 30, -(1 << 30), 65536, -65536}; d = X[r.below(9)]; count("ops.seek_extreme_distance"); }
             hist += fmt(" seek(%d)", d);
             got.clear();
             std::vector<std::string> exp;
